@@ -24,8 +24,8 @@ type TagStep struct {
 
 // C15Script is a generated case.
 type C15Script struct {
-	Cfg   SessCfg  `json:"cfg"`
-	Own   []uint32 `json:"own"` // values served to the victim's instance-tag draws
+	Cfg   SessCfg   `json:"cfg"`
+	Own   []uint32  `json:"own"` // values served to the victim's instance-tag draws
 	Steps []TagStep `json:"steps"`
 }
 
@@ -49,14 +49,14 @@ func (r *c15run) tagOf(class, salt int) uint32 {
 }
 
 type c15run struct {
-	m      *Mix
-	o      *sim.Outcome
-	other  *ref.Party // a second client instance of the peer's account
-	bound  uint32
-	hits   int
-	nText  int
-	sentR  []string
-	gotA   []string
+	m     *Mix
+	o     *sim.Outcome
+	other *ref.Party // a second client instance of the peer's account
+	bound uint32
+	hits  int
+	nText int
+	sentR []string
+	gotA  []string
 }
 
 func malformedTags(st, rt uint32) bool { return st < 0x100 || (rt > 0 && rt < 0x100) }
